@@ -61,7 +61,7 @@ g++ $BUILD/c08_common.o $BUILD/c08_str.o $BUILD/c08_mem.o $BUILD/c08_tok.o $OBJS
 g++ -fsanitize=thread $BUILD/h_tsan.o $TOBJS $BUILD/sched.o $BUILD/mc.o -ldl -lpthread -o $BUILD/c08_tsan
 echo "strings $BUILD/c08" > $BUILD/runs.txt
 echo "reentrancy $BUILD/c08_tsan" >> $BUILD/runs.txt
-SEL=str_large,mem_large,strtok_large,str_history,mem_history,memcpy_every_alignment,memset_every_value,callers_recompute_after_modification
+SEL=str_large,mem_large,strtok_large,str_history,mem_history,memcpy_every_alignment,memset_every_value,callers_recompute_after_modification,byte_pairs_every_position,str_aliased_operands
 for v in o2n osn o3u clang; do
     eval "vo=\$VOBJS_$v"
     igc_resolve $vo
